@@ -1,10 +1,13 @@
 #!/usr/bin/env python3
 """Run every seeded change through its property's check (tools/try_seed.sh: apply to /repo, check, hard-reset) and record the
-result in seeded/<ID>/meta.json under "detection". usage: tools/score_seeds.py [ID ...] [--tier quick|thorough]"""
+result in seeded/<ID>/meta.json under "detection". usage: tools/score_seeds.py [ID ...] [--tier quick|thorough] [--copy]
+--copy applies the patch to a scratch copy of /repo's sources (tools/try_seed_copy.sh) instead of /repo itself; a patch that needs a
+three-way merge does not apply there and keeps its previous record."""
 import json, os, re, subprocess, sys
 V = '/verif'
 args = [a for a in sys.argv[1:] if not a.startswith('--')]
 tier = 'quick'
+runner = 'try_seed_copy.sh' if '--copy' in sys.argv else 'try_seed.sh'
 if '--tier' in sys.argv:
     tier = sys.argv[sys.argv.index('--tier') + 1]
 claimed = {c['property_id'] for c in json.load(open(f'{V}/MANIFEST.json'))['checks']}
@@ -21,8 +24,11 @@ for d in sorted(os.listdir(f'{V}/seeded')):
         meta['detection'] = {'result': 'property-not-claimed'}
     else:
         t = 'thorough' if meta.get('needs_tier') == 'thorough' else tier
-        p = subprocess.run([f'{V}/tools/try_seed.sh', f'{V}/seeded/{d}/patch.diff', pid, t], capture_output=True, text=True)
+        p = subprocess.run([f'{V}/tools/{runner}', f'{V}/seeded/{d}/patch.diff', pid, t], capture_output=True, text=True)
         out = p.stdout
+        if p.returncode == 8:
+            print(d, 'patch-does-not-apply (record kept)', flush=True)
+            continue
         obl = re.findall(r'^  obligation: (.*)$', out, re.M)
         und = re.findall(r'^UNDECIDED .*?"reason": "([^"]*)', out, re.M)
         res = {0: 'missed', 1: 'violation', 2: 'undecided'}.get(p.returncode, f'error-{p.returncode}')
